@@ -108,3 +108,24 @@ Theorem C08_zero_copy_atomic_components_invariant :
     Inv N (ub st (zq st (zx_run N M k ws wr evs))) /\ Inv N (ua st (zq st (zx_run N M k ws wr evs))).
 Proof. exact zx_atomic_components_invariant. Qed.
 Print Assumptions C08_zero_copy_atomic_components_invariant.
+
+(* ---- the glue between the channel's streams and the ring (Chan/ChanXGlue.v): in EVERY run of the movable atomic channel machine with all
+   its entry points (plain sends, send_with_async, reservations from any thread, polls, drives, cancels - the only hypothesis: the acting
+   threads are real threads, not the model's virtual reservation threads), what the STREAMS yielded is exactly what the ring handed out,
+   in the same order ... ---- *)
+From RM Require Import ChanXGlue.
+Theorem C08_streams_yield_what_the_ring_hands_out :
+  forall N M k ws wr wa xevs, Forall xreal_ev xevs ->
+    let s := fold_left (xexec N idz idz M k ws wr wa) xevs (xinit k (reinit_at 0)) in
+    cyields (clog _ (xb s)) = yielded_of (log (ring (qx s))).
+Proof. exact xg_yields. Qed.
+Print Assumptions C08_streams_yield_what_the_ring_hands_out.
+
+(* ... hence, under the single-producer discipline of the reserve theorems: what the streams yielded is, in order, a prefix of what the ring
+   accepted - reserved-and-sent events exactly once with the written content, cancelled ones never - at the level of the channel's answers *)
+Theorem C08_streams_get_sent_reservations_exactly_once :
+  forall N M k ws wr wa xevs, 0 < N -> Forall xwf_ev xevs ->
+    let s := fold_left (xexec N idz idz M k ws wr wa) xevs (xinit k (reinit_at 0)) in
+    cyields (clog _ (xb s)) = firstn (length (cyields (clog _ (xb s)))) (accepted_of (log (ring (qx s)))).
+Proof. exact chan_reserve_streams_exactly_once. Qed.
+Print Assumptions C08_streams_get_sent_reservations_exactly_once.
